@@ -177,14 +177,15 @@ def run(ctx):
                     w = [Fraction(math.exp((a - mx) / e['T'])) for a in col]
                     for j in range(len(col)):
                         sexprs.append('run_sm_grad %s %s %s %s' % (coq(w), fr(cj), coq(Nat(j)), coq(w[j] / Fraction(e['T']))))
-                        srefs.append((kind, o, e, j, gcol[j], div, max(abs(v) for v in gcol)))
+                        srefs.append((kind, o, e, j, gcol[j], div, max(abs(v) for v in gcol), max(abs(float(c)) for c in cj)))
             svals = ctx.coq_eval_sharded('smgrad', ['Plinio.Model.Masks', 'Plinio.Model.CostGrad'], '', sexprs, shard=400) if sexprs else []
-            for (kind, o, e, j, gi, div, scale), v in zip(srefs, svals):
+            for (kind, o, e, j, gi, div, scale, cmax), v in zip(srefs, svals):
                 mult = sum(1 for (k2, o2, e2) in refs if o2 is o and k2 == kind and e2.get('spec') == e.get('spec') and e2.get('comb', e2.get('layer')) == e.get('comb', e.get('layer')))
                 mv = Fraction(v[0], v[1]) * mult / div
                 ctx.corr += 1
                 nsm += 1
-                if abs(Fraction(gi) - mv) > Fraction(2.0 ** -14) * max(1, abs(mv), Fraction(scale)):
+                # the implementation forms (c_j - cost) in float32: its absolute error scales with the branch costs, not with the gradient
+                if abs(Fraction(gi) - mv) > Fraction(2.0 ** -14) * max(1, abs(mv), Fraction(scale)) + Fraction(2.0 ** -17) * Fraction(cmax):
                     mism.append(({'kind': kind, 'seed': o['seed'], 'model': o['model'], 'spec': e.get('spec'), 'layer': e.get('comb', e.get('layer'))},
                                  {'what': 'd cost / d alpha_j through the softmax', 'j': j, 'impl_autograd': gi, 'model_dual': float(mv)}))
             tot = {}
